@@ -30,12 +30,21 @@ struct Prog {
 const ONE_TYPE: &[(&str, &str)] = &[("E", "x"), ("E", "y"), ("E", "z")];
 const TWO_TYPES: &[(&str, &str)] = &[("A", "x"), ("B", "x"), ("A", "y"), ("B", "y")];
 
-const PROGS: [Prog; 5] = [
+/// alphabets with events that do NOT carry the partition key field `k` (key "-"): the engine puts
+/// them in its default partition, so the CLI must keep them together as well (added after seeded
+/// change C18: key-less events spread round-robin)
+const ONE_TYPE_KEYLESS: &[(&str, &str)] = &[("E", "-"), ("E", "x")];
+const TWO_TYPES_KEYLESS: &[(&str, &str)] = &[("A", "-"), ("B", "-"), ("A", "x")];
+
+const PROGS: [Prog; 8] = [
     Prog { name: "filter_emit", kind: "stateless", src: "stream S = E\n    .where(v > 1)\n    .emit(id: id, k: k, v: v)\n", events: ONE_TYPE },
     Prog { name: "filter_chain", kind: "stateless", src: "stream S = E\n    .where(v >= 2)\n    .emit(id: id, k: k, d: v * 2)\nstream T = S\n    .where(d > 4)\n    .emit(id: id, k: k)\n", events: ONE_TYPE },
     Prog { name: "count_window_aggregate", kind: "keyed", src: "stream S = E\n    .partition_by(k)\n    .window(2)\n    .aggregate(kk: last(k), c: count(), s: sum(v), f: first(id))\n    .emit(k: kk, c: c, s: s, f: f)\n", events: ONE_TYPE },
     Prog { name: "sequence_one_type", kind: "keyed", src: "stream S = E as a -> E as b\n    .partition_by(k)\n    .emit(a: a.id, b: b.id, k: a.k)\n", events: ONE_TYPE },
     Prog { name: "sequence_two_types", kind: "keyed", src: "stream S = A as a -> B as b\n    .partition_by(k)\n    .emit(a: a.id, b: b.id, k: a.k)\n", events: TWO_TYPES },
+    Prog { name: "count_window_aggregate_keyless_events", kind: "keyed", src: "stream S = E\n    .partition_by(k)\n    .window(2)\n    .aggregate(c: count(), s: sum(v), f: first(id))\n    .emit(c: c, s: s, f: f)\n", events: ONE_TYPE_KEYLESS },
+    Prog { name: "sequence_one_type_keyless_events", kind: "keyed", src: "stream S = E as a -> E as b\n    .partition_by(k)\n    .emit(a: a.id, b: b.id)\n", events: ONE_TYPE_KEYLESS },
+    Prog { name: "sequence_two_types_keyless_events", kind: "keyed", src: "stream S = A as a -> B as b\n    .partition_by(k)\n    .emit(a: a.id, b: b.id)\n", events: TWO_TYPES_KEYLESS },
 ];
 const MODES: [&str; 2] = ["streaming", "preload"];
 
@@ -45,7 +54,11 @@ fn event_file(p: &Prog, seq: &[usize]) -> String {
     let mut s = String::new();
     for (i, sym) in seq.iter().enumerate() {
         let (ty, k) = p.events[*sym];
-        s.push_str(&format!("{ty} {{ id: {i}, k: \"{k}\", v: {} }}\n", i % 3 + 1));
+        if k == "-" {
+            s.push_str(&format!("{ty} {{ id: {i}, v: {} }}\n", i % 3 + 1));
+        } else {
+            s.push_str(&format!("{ty} {{ id: {i}, k: \"{k}\", v: {} }}\n", i % 3 + 1));
+        }
     }
     s
 }
@@ -259,6 +272,7 @@ fn cases(tier: Tier) -> Vec<Case> {
         } else {
             match (tier, p.name) {
                 (Tier::Quick, "count_window_aggregate") => all_seqs(k, 4, 4),
+                (_, name) if name.ends_with("keyless_events") => all_seqs(k, 1, tier.pick(3, 5)),
                 (Tier::Quick, _) => all_seqs(k, 3, 3),
                 (Tier::Thorough, _) if k == 3 => all_seqs(k, 1, 5),
                 (Tier::Thorough, _) => all_seqs(k, 1, 4),
@@ -275,6 +289,9 @@ fn cases(tier: Tier) -> Vec<Case> {
             v.push(Case { prog: pi, seq });
         }
     }
+    // shortest event files first across all programs, so that a wall cap cuts the long files of
+    // the big alphabets rather than whole programs
+    v.sort_by_key(|c| c.seq.len());
     v
 }
 
@@ -367,7 +384,7 @@ pub fn run(args: &Args) -> ! {
         rep.sample(json!({"program": PROGS[c.prog].name, "event_file": event_file(&PROGS[c.prog], &c.seq)}));
     }
     rep.rule = format!(
-        "Exhaustive over the stated case list: 2 stateless programs (filter+emit; two chained filter streams) × one event file per length 1..={}, 3 keyed programs (partition_by(k) + count window 2 + aggregate; partitioned sequence E→E; partitioned sequence A→B) × every event file over the program's event alphabet (E×{{x,y,z}}: {}; {{A,B}}×{{x,y}}: {}) plus every {}-symbol block repeated to {} events; for every case and both modes (streaming, --preload) the real binary is run with N = 1 and with every N in {:?} and the multisets of `OUTPUT EVENT` lines are compared ({} cases). evaluations = runs of the binary. Non-trivial = comparison whose 1-worker run emitted at least one output event.",
+        "Exhaustive over the stated case list: 2 stateless programs (filter+emit; two chained filter streams) × one event file per length 1..={}, 6 keyed programs (partition_by(k) + count window 2 + aggregate; partitioned sequence E→E; partitioned sequence A→B; and the same three over alphabets containing events without the key field k, every file of length 1..=3 (quick) / 1..=5 (thorough)) × every event file over the program's event alphabet (E×{{x,y,z}}: {}; {{A,B}}×{{x,y}}: {}) plus every {}-symbol block repeated to {} events; for every case and both modes (streaming, --preload) the real binary is run with N = 1 and with every N in {:?} and the multisets of `OUTPUT EVENT` lines are compared ({} cases). evaluations = runs of the binary. Non-trivial = comparison whose 1-worker run emitted at least one output event.",
         args.tier.pick(8, 12),
         args.tier.pick("length 4 for the window program, length 3 for the sequence program", "lengths 1–5"),
         args.tier.pick("length 3", "lengths 1–4"),
